@@ -61,6 +61,7 @@ class Contract:
         self.notes = []
         self.may_raise_ = []
         self.force_result = False
+        self.internal_ = set()
         self.replay_prepare = None
         self.yield_ensures_ = []       # exception classes callers must consider (with optional cond)
         self.consts_ = []          # (name, fn(repo) -> (bool, detail))
@@ -78,11 +79,21 @@ class Contract:
     def requires(self, name, fn):
         self.requires_.append((name, fn))
 
-    def ensures(self, name, fn, props=None):
+    def ensures(self, name, fn, props=None, internal=False):
+        """internal=True: checked on the body but not exported to callers (it speaks about
+        ghost state of the body, e.g. loop witnesses)"""
         self.ensures_.append((name, fn, props))
+        if internal:
+            self.internal_.add(name)
+        if props is not None:
+            self.clause_props[name] = props
 
-    def exc_ensures(self, name, exc, fn, props=None):
+    def exc_ensures(self, name, exc, fn, props=None, internal=False):
         self.exc_ensures_.append((name, exc, fn, props))
+        if internal:
+            self.internal_.add(name)
+        if props is not None:
+            self.clause_props[name] = props
 
     def yield_ensures(self, name, fn):
         """obligation on every value a generator yields: fn(env, value_view) -> Bool"""
@@ -420,6 +431,8 @@ class VEngine(Engine):
                 return wit[name]
             env = _CallEnv(it, bound, {'result': res, '__witness__': witness}, old_heap)
             for name, fn, _ in con.ensures_:
+                if name in con.internal_:
+                    continue
                 ctx.assume(fn(env))
             return res
         exc = VExc(out, [], {}, line=getattr(node, 'lineno', None))
@@ -428,6 +441,8 @@ class VEngine(Engine):
                 VInt(ctx.fresh_const('errno', z3.IntSort()))
         env = _CallEnv(it, bound, {'exc': exc}, old_heap)
         for name, ecls, fn, _ in con.exc_ensures_:
+            if name in con.internal_:
+                continue
             if self.exc_isinstance(out, ecls):
                 ctx.assume(fn(env))
         raise PyRaise(exc)
@@ -443,6 +458,10 @@ class _CallEnv(ClauseEnv):
     @property
     def old(self):
         return ClauseEnv(self._it, None, {}, self._old_heap, self._entry, {})
+
+    def has_ghost(self, name):
+        raise RuntimeError('clause depends on the path taken through the body (has_ghost(%r)) but is exported to '
+                           'call sites; mark it internal=True' % name)
 
 
 # --------------------------------------------------------------------------
